@@ -176,6 +176,26 @@ def _corr_const(_):
     return st
 
 
+def _corr_tiny(_):
+    """non-constant sources whose spread is tiny (1e-7 .. 1e-10) or huge: the construction must not rely on an assumed norm"""
+    st = Stats()
+    menu = normal_menu(6)
+    base = [0.0, 1.0, 2.0, 1.0, 0.0, 3.0]
+    for scale in (1e-7, 1e-8, 1e-9, 1e-10, 1e6):
+        for shift in (0.0, 5.0):
+            src = [shift + v * scale for v in base]
+            for r in (0.8, -0.5, 0.1):
+                for vi in (0, 1, 5):
+                    st.count('evaluations')
+                    st.count('nontrivial')
+                    st.count('correlated_cases')
+                    if len(set(src)) < 2:
+                        continue
+                    for kind, msg in judge_correlated([src, [2, 0, 1, 1, 3, 0]], 0, r, menu[vi]):
+                        st.violation({'kind': 'corr_tiny', 'scale': scale, 'shift': shift, 'r': r, 'normal': vi}, msg, {'kind': kind, 'tiny': True})
+    return st
+
+
 def _corr_chain(job):
     lo, hi = job
     st = Stats()
@@ -528,7 +548,8 @@ def _down_job(seeds):
     st = Stats()
     g = gen_cls()()
     sets = [(np.arange(24).reshape(8, 3), np.array([0, 0, 0, 1, 1, 2, 2, 2])), (np.arange(10).reshape(5, 2), np.array([1, 0, 1, 0, 1])),
-            (np.arange(14).reshape(7, 2), np.array([3, 3, 5, 5, 5, 3, 5]))]
+            (np.arange(14).reshape(7, 2), np.array([3, 3, 5, 5, 5, 3, 5])),
+            (np.arange(12).reshape(6, 2), np.array([0, 1, 0, 1, 0, 1])), (np.arange(16).reshape(8, 2), np.array([2, 2, 7, 7, 2, 7, 2, 7]))]   # the last two are already balanced
     for si, (X, y) in enumerate(sets):
         vals, counts = np.unique(y, return_counts=True)
         for n in [None] + list(range(1, int(counts.min()) + 1)):
@@ -564,12 +585,13 @@ def _dispatch(item):
     k, job = item
     if k == 'labels':
         return _labels_job(job)[0]
-    return {'corr': _corr_job, 'corr_chain': _corr_chain, 'corr_const': _corr_const, 'corr_long': _corr_long, 'seq': _seq_job, 'noise_ctrl': _noise_ctrl_job, 'noise_seed': _noise_seed_job, 'down': _down_job}[k](job)
+    return {'corr': _corr_job, 'corr_chain': _corr_chain, 'corr_const': _corr_const, 'corr_tiny': _corr_tiny, 'corr_long': _corr_long, 'seq': _seq_job, 'noise_ctrl': _noise_ctrl_job, 'noise_seed': _noise_seed_job, 'down': _down_job}[k](job)
 
 
 def run(ctx):
     jobs = [('corr', (lo, hi)) for lo, hi in shards(78, 26)]
     jobs.append(('corr_long', None))
+    jobs.append(('corr_tiny', None))
     jobs.append(('corr_const', None))
     jobs += [('corr_chain', (lo, hi)) for lo, hi in shards(78, 6)]
     nm = len(call_menu())
@@ -603,6 +625,8 @@ def eval_case(case):
     if k == 'correlated':
         n = len(case['cols'][0])
         return [m for _, m in judge_correlated(case['cols'], case['indices'], case['r'], normal_menu(n)[case['normal']])]
+    if k == 'corr_tiny':
+        return [v['what'] for v in _corr_tiny(None).violations if v['case']['scale'] == case['scale']]
     if k == 'corr_const':
         return [v['what'] for v in _corr_const(None).violations if v['case']['indices'] == case['indices']]
     if k == 'corr_chain':
